@@ -217,6 +217,16 @@ func c20EIRP(c *core.Ctx, p float32) {
 }
 
 func runC20(c *core.Ctx) {
+	// which conversion a process uses first must not matter (lazily built tables): the workers take turns
+	switch c.Batch % 4 {
+	case 1:
+		c20GPSDuration(c, 1167264018*time.Second) // 2017-01-01T00:00:00Z, the instant right after the last leap second
+	case 2:
+		c20Airtime(c, 12, 1625, 1, 8, true, false)
+	case 3:
+		c20EIRP(c, 36)
+		c20GPSDuration(c, 315964800*time.Second)
+	}
 	// ------------------------------------------------ GPS
 	var offs []time.Duration
 	for s := -40; s < -2; s++ { // every second of the minute before the insertion (windows of "n seconds before a leap" bugs)
